@@ -1319,6 +1319,7 @@ func TestC20(t *testing.T) {
 	e.memoSweep()
 	e.precompileSweep()
 	e.precompileRunSweep(t)
+	e.handlerSweep(t)
 	e.decoderSweep()
 	e.feeSweep()
 	e.hostileAnte()
